@@ -206,19 +206,24 @@ pub struct BatchResult {
 fn exec_fresh<P: Property>(p: &P, sc: &P::Sc, sub: &str, exec: Decider, env: &Env) -> RunOut {
     let (pp, sc2, sub2, env2) = (*p, sc.clone(), sub.to_string(), env.clone());
     let (tx, rx) = std::sync::mpsc::channel();
+    let (tid_tx, tid_rx) = std::sync::mpsc::channel::<libc::pthread_t>();
     std::thread::Builder::new()
         .name("qsim-run".into())
         .stack_size(64 << 20)
         .spawn(move || {
+            let _ = tid_tx.send(unsafe { libc::pthread_self() });
             crate::simcore::mark_harness_thread();
             let r = std::panic::catch_unwind(std::panic::AssertUnwindSafe(|| pp.execute(&sc2, &sub2, exec, &env2)));
             let _ = tx.send(r);
         })
         .expect("spawn run thread");
+    let tid = tid_rx.recv().ok();
     // A run that blocks (a real lock held across a scheduling point of the simulated pool) or loops
     // for ever (a corrupted data structure walked by the code under test) is abandoned after the
-    // limit: its thread is left behind, the run counts as hung - never as a verdict - and the batch
-    // goes on, so that violations found by other runs are still minimised and reported.
+    // limit: the run counts as hung - never as a verdict - and the batch goes on, so that violations
+    // found by other runs are still minimised and reported. The abandoned thread is frozen with a
+    // signal whose handler never returns: left running, a loop that allocates (observed: 0.4 GB per
+    // second under seeded change C18-m10) takes the whole machine down before the batch ends.
     let mut waited = 0u64;
     loop {
         match rx.recv_timeout(std::time::Duration::from_secs(5)) {
@@ -226,8 +231,14 @@ fn exec_fresh<P: Property>(p: &P, sc: &P::Sc, sub: &str, exec: Decider, env: &En
             Ok(Err(e)) => std::panic::resume_unwind(e),
             Err(std::sync::mpsc::RecvTimeoutError::Timeout) => {
                 waited += 5;
-                if waited >= run_limit_s() {
+                // memory pressure: a run that has been going for a while when the process has grown
+                // beyond a third of the machine's memory is very likely the one that loops and allocates
+                let mem_alarm = waited >= 10 && rss_fraction() > 0.33;
+                if waited >= run_limit_s() || mem_alarm {
                     eprintln!("qsim: a run of sub-batch {sub} has not finished after {waited}s of wall clock and is abandoned (the code under test blocks or loops)");
+                    if let Some(t) = tid {
+                        freeze_thread(t);
+                    }
                     return RunOut { engine: "native", inconclusive: true, hung: true, ..Default::default() };
                 }
             }
@@ -236,10 +247,41 @@ fn exec_fresh<P: Property>(p: &P, sc: &P::Sc, sub: &str, exec: Decider, env: &En
     }
 }
 
-/// Wall-clock limit for one run: QSIM_RUN_LIMIT_S (default 120 s), stretched by the load per core
+extern "C" fn freeze_handler(_sig: libc::c_int) {
+    loop {
+        unsafe { libc::pause() };
+    }
+}
+
+/// Stop a thread for good: SIGUSR2 with a handler that never returns (only `pause`, which is
+/// async-signal-safe). The thread keeps whatever it holds; it just no longer runs or allocates.
+fn freeze_thread(t: libc::pthread_t) {
+    static INSTALL: std::sync::Once = std::sync::Once::new();
+    INSTALL.call_once(|| unsafe {
+        let mut sa: libc::sigaction = std::mem::zeroed();
+        sa.sa_sigaction = freeze_handler as usize;
+        libc::sigemptyset(&mut sa.sa_mask);
+        libc::sigaction(libc::SIGUSR2, &sa, std::ptr::null_mut());
+    });
+    unsafe {
+        libc::pthread_kill(t, libc::SIGUSR2);
+    }
+}
+
+/// Resident set size of this process as a fraction of the machine's memory.
+fn rss_fraction() -> f64 {
+    let pages: f64 = std::fs::read_to_string("/proc/self/statm").ok().and_then(|t| t.split(' ').nth(1).and_then(|x| x.parse().ok())).unwrap_or(0.0);
+    let total_kb: f64 = std::fs::read_to_string("/proc/meminfo")
+        .ok()
+        .and_then(|t| t.lines().find(|l| l.starts_with("MemTotal:")).and_then(|l| l.split_whitespace().nth(1).and_then(|x| x.parse().ok())))
+        .unwrap_or(f64::MAX);
+    pages * 4.0 / total_kb
+}
+
+/// Wall-clock limit for one run: QSIM_RUN_LIMIT_S (default 60 s), stretched by the load per core
 /// (at most 8x) - on an overloaded machine a runnable thread can wait a long time for a core.
 pub fn run_limit_s() -> u64 {
-    let base: u64 = std::env::var("QSIM_RUN_LIMIT_S").ok().and_then(|s| s.parse().ok()).unwrap_or(120);
+    let base: u64 = std::env::var("QSIM_RUN_LIMIT_S").ok().and_then(|s| s.parse().ok()).unwrap_or(60);
     let load = std::fs::read_to_string("/proc/loadavg").ok().and_then(|t| t.split(' ').next().and_then(|x| x.parse::<f64>().ok())).unwrap_or(0.0);
     let cores = std::thread::available_parallelism().map(|n| n.get()).unwrap_or(1) as f64;
     (base as f64 * (load / cores).clamp(1.0, 8.0)) as u64
